@@ -126,6 +126,9 @@ def check_valid(tc, rec):
     if base is SKIP:
         return
     variants = []
+    if isinstance(a, np.ma.MaskedArray):
+        # the canonical input may itself be a masked array (C03's generator); the other carriers start from plain data
+        a = np.where(np.ma.getmaskarray(a), np.datetime64("NaT") if case["kind"] == "dt" else np.nan, np.ma.getdata(a))
     if case["kind"] == "float":
         xs = case["x"]
         for k in ["f32", "masked_nan", "masked_junk", "series", "series_shifted", "dask"]:
